@@ -26,6 +26,13 @@ FAULTS = [
     ("bad-index", "Leaf", "Leaf { n: 7, s: \"hello\".to_string() }", "Leaf { n[0]: 1, .. }", "n[0]: 1"),
     ("wildcard-unknown-field", "Leaf", "Leaf { n: 7, s: \"hello\".to_string() }", "_ { zz: 1, .. }", "zz: 1"),
     ("nested-literal-type", "Leaf", "Leaf { n: 7, s: \"hello\".to_string() }", "Leaf { n: \"seven\", .. }", "\"seven\""),
+    # the value's type does not support the comparison at all (E0599 / E0369 on the generated method call)
+    ("no-partialord", "NC", "NC(\"a\".to_string())", "> NC(\"b\".to_string())", "> NC(\"b\".to_string())"),
+    ("no-partialord-le", "NoEq", "NoEq(1)", "<= NoEq(2)", "<= NoEq(2)"),
+    ("no-partialeq-ne", "NoEq", "NoEq(1)", "!= NoEq(2)", "!= NoEq(2)"),
+    ("no-partialeq-eq", "NoEq", "NoEq(1)", "== NoEq(2)", "== NoEq(2)"),
+    ("unknown-tuple-index", "(i32, String)", "(7, \"hello\".to_string())", "_ { 5: 1, .. }", "5: 1"),
+    ("unknown-nested-tuple-index", "Leaf", "Leaf { n: 7, s: \"hello\".to_string() }", "Leaf { n.3: 1, .. }", "n.3: 1"),
     ("nested-operand-type", "Leaf", "Leaf { n: 7, s: \"hello\".to_string() }", "Leaf { n: 7, s.len(): < \"five\" }", "< \"five\""),
 ]
 
